@@ -344,7 +344,25 @@ impl<'tcx> Cx<'tcx> {
                 ("aty", js(self.tystr(a.ty(body, tcx)))),
             ]),
             Rvalue::Discriminant(p) => {
-                J::O(vec![("k", js("discr")), ("place", self.place(body, p))])
+                let pty = p.ty(body, tcx).ty;
+                let mut o = vec![
+                    ("k", js("discr")),
+                    ("place", self.place(body, p)),
+                    ("ety", js(self.tystr(pty))),
+                ];
+                if let ty::Adt(def, _) = pty.kind() {
+                    if def.is_enum() {
+                        let mut vs = vec![];
+                        for (vi, d) in def.discriminants(tcx) {
+                            vs.push(J::A(vec![
+                                J::I(d.val as i128),
+                                js(def.variant(vi).name.to_string()),
+                            ]));
+                        }
+                        o.push(("variants", J::A(vs)));
+                    }
+                }
+                J::O(o)
             }
             Rvalue::Aggregate(kind, ops) => {
                 let mut o = vec![("k", js("agg"))];
